@@ -42,7 +42,7 @@ func genC13(t *rapid.T) C13Case {
 		for i := 0; i < n; i++ {
 			var s C13Step
 			if rapid.IntRange(0, 3).Draw(t, "special") == 0 {
-				s.Special = rapid.SampledFrom([]string{"abort-upload", "abort-download", "upgrade", "connect10", "idle-close", "half-request",
+				s.Special = rapid.SampledFrom([]string{"abort-upload", "abort-download", "upgrade", "upgrade-advert", "upgrade-declined", "connect10", "idle-close", "half-request",
 					"mitm-abandon", "mitm-bad-hello", "mitm-cleartext", "connect-reset-while-dialling", "reset-before-response",
 					"pp-ok", "pp-silent", "pp-garbage", "pp-partial"}).Draw(t, "specialkind")
 				s.Route = rapid.SampledFrom([]string{"direct", "direct", "mitm", "upstream"}).Draw(t, "sroute")
@@ -241,6 +241,24 @@ func (e *fltEnv) runSpecial(s C13Step, id int64, idx int) acct {
 		a.reqs = append(a.reqs, acctReq{"GET", m.Status})
 		buf := make([]byte, 100)
 		br.Read(buf)
+	case "upgrade-advert", "upgrade-declined":
+		// a response that names an upgrade without switching: an origin advertising another protocol on an ordinary
+		// answer, or declining / demanding an upgrade (426). An exchange like any other.
+		status := []string{"200 OK", "426 Upgrade Required", "400 Bad Request", "200 OK"}[idx%4]
+		sc := &OriginScript{Parts: [][]byte{[]byte("HTTP/1.1 " + status + "\r\nConnection: Upgrade\r\nUpgrade: h2c, foo\r\nContent-Length: 2\r\n\r\nok")}}
+		scripts.Store(vid, sc)
+		defer scripts.Delete(vid)
+		ask := ""
+		if s.Special == "upgrade-declined" {
+			ask = "Connection: Upgrade\r\nUpgrade: foo\r\n"
+		}
+		fmt.Fprintf(conn, "GET %s HTTP/1.1\r\nHost: %s\r\nX-Vid: %s\r\n%s\r\n", target, host, vid, ask)
+		m, err := ReadResponse(br, "GET")
+		if err != nil {
+			a.skip = true
+			return a
+		}
+		a.reqs = append(a.reqs, acctReq{"GET", m.Status})
 	case "connect-reset-while-dialling":
 		// the client resets its connection while the proxy is still reaching the target: the 200 cannot be written
 		fmt.Fprintf(conn, "CONNECT slow.test:80 HTTP/1.1\r\nHost: slow.test:80\r\n\r\n")
